@@ -1,10 +1,14 @@
 #!/bin/bash
 # usage: seedtest.sh <seed-dir> <check-id>...   e.g. seedtest.sh /tmp/seed-out/C03/a C03 C04
 # Applies the seeded change to /repo, runs the given checks (quick), prints their verdict lines, undoes the change.
+# With SEED_REPO=<scratch clone of /repo> the change is applied there instead and the checks read
+# that tree (VERIF_REPO), so that /repo itself stays untouched while other runs are reading it.
 S="$1"; shift
+R=${SEED_REPO:-/repo}
+export VERIF_REPO=$R
 cd /verif
 if ! tools/applyseed.sh "$S/patch.diff" > /tmp/applyseed.log 2>&1; then echo "APPLY-FAILED $S"; cat /tmp/applyseed.log | tail -5; tools/unseed.sh >/dev/null; exit 2; fi
-(cd /repo && GOFLAGS=-mod=mod GOPROXY=off go test -vet=off -count=1 ./ ./set 2>&1 | tail -2 | tr '\n' ' '); echo
+(cd $R && GOFLAGS=-mod=mod GOPROXY=off go test -vet=off -count=1 ./ ./set 2>&1 | tail -2 | tr '\n' ' '); echo
 for c in "$@"; do
   out=$(bin/vcheck run $c --tier quick 2>&1)
   code=$?
